@@ -111,11 +111,17 @@ def run_driver(exe, casefile, nprocs=1, timeout=600, extra_env=None, args=()):
         cmd += [exe, casefile] + list(args)
     else:
         cmd = [exe, casefile] + list(args)
+    import signal
+    p = subprocess.Popen(cmd, stdout=subprocess.PIPE, stderr=subprocess.PIPE, text=True, env=e, start_new_session=True)
     try:
-        p = subprocess.run(cmd, capture_output=True, text=True, env=e, timeout=timeout)
-    except subprocess.TimeoutExpired as ex:
-        return 124, (ex.stdout or b"").decode() if isinstance(ex.stdout, bytes) else (ex.stdout or ""), "timeout"
-    return p.returncode, p.stdout, p.stderr
+        out, err = p.communicate(timeout=timeout)
+    except subprocess.TimeoutExpired:
+        try: os.killpg(p.pid, signal.SIGKILL)      # mpirun and every rank it started
+        except Exception: pass
+        try: out, err = p.communicate(timeout=10)
+        except Exception: out, err = "", ""
+        return 124, out or "", "timeout"
+    return p.returncode, out, err
 
 if __name__ == "__main__":
     print(build_lib())
